@@ -4,7 +4,7 @@
    [fmt_time]/[pt] for time.Format / time.Parse(RFC3339); their round-trip
    premises are hypotheses (trusted base, instantiated by the harness from the
    real functions).  Integer and boolean texts are modelled and proved. *)
-From Coq Require Import List ZArith Ascii.
+From Coq Require Import List ZArith Ascii Permutation.
 Import ListNotations.
 Local Open Scope Z_scope.
 From Goag Require Import Base.Str Model.Router Model.Params Model.Json Model.Client Spec.JsonSpec
@@ -89,3 +89,9 @@ Theorem C09_wire_query_agrees : forall (q : list (str * str)) name,
   vals name (parse_query (encode_query (sort_pairs q))) = vals name q.
 Proof. exact wire_query_agrees. Qed.
 Print Assumptions C09_wire_query_agrees.
+
+(* the key-sorted order Encode writes the pairs in is a permutation of the pairs
+   the client set: none lost, none invented *)
+Theorem C09_encode_order_is_a_permutation : forall l, Permutation (sort_pairs l) l.
+Proof. exact sort_pairs_perm. Qed.
+Print Assumptions C09_encode_order_is_a_permutation.
